@@ -3,7 +3,7 @@ from .. import roles
 from ..callgraph import CallGraph
 from ..cfg import can_reach_return, dominators, natural_loops, reachable
 from ..facts import KIND, callee, place_fields
-from ..rules import belief, cover
+from ..rules import belief, cover, guards
 from . import c01, c01_bounds, c03_unsafe
 
 LEVEL = "other"
@@ -408,6 +408,7 @@ def run(ck, facts, tier):
     rule_limits(ck, facts)
     rule_admission(ck, facts)
     rule_alloc_grow(ck, facts)
+    guards.run(ck, facts, "C03.guarded-index", ["mimium_lang", "state_tree", "mimium_scheduler", "mimium_audiodriver"])
     c03_unsafe.run(ck, facts, cg, tier)
     ck.not_decided("absence of index/overflow/division panics (compiler-inserted asserts are counted in the evidence only)")
     ck.not_decided("termination of user programs; 'dsp yields exactly the declared number of words' (run-time stack discipline)")
